@@ -43,7 +43,7 @@ COMPONENTS = {
 }
 ASSUMPTIONS = ['registrations and finalize hooks are outside what clear_config '
                'resets (by the property: registered configurables remain)']
-CONSTS = ['X', 'a.X', 'b.a.X', 'Y', 'a.Y', 'pi', 'math.pi']
+CONSTS = ['X', 'a.X', 'b.a.X', 'Y', 'a.Y', 'pi', 'math.pi', 'gin.extra.K']
 
 
 def _gen_ops(rng, n, uid):
@@ -80,7 +80,9 @@ def _gen_ops(rng, n, uid):
                   'scope': rng.choice(['', 's1', 's1/s2', 'zz']),
                   'kw': rng.choice([{}, {}, {'a': u}])})
     elif r < 0.58:
-      ops.append({'op': 'singleton', 'key': rng.choice(['k1', 'k2'])})
+      ops.append({'op': 'singleton', 'key': rng.choice(['k1', 'k2']),
+                  'how': rng.choice(['scoped_ctor', 'scoped_ctor', 'root_ctor',
+                                     'programmatic'])})
     elif r < 0.64:
       ops.append({'op': 'finalize'})
     elif r < 0.7:
@@ -141,7 +143,7 @@ class _World:
                       {'n': 'b', 'k': 'def', 'd': 'db%d' % i}]}, hook)
       self.fns['f%d' % i] = probes.register_probe({'name': 'f%d' % i}, obj)
     mk, _ = probes.compile_probe({'name': 'mk', 'kind': 'fn', 'params': []}, hook)
-    probes.register_probe({'name': 'mk'}, mk)
+    self.mk_conf = probes.register_probe({'name': 'mk'}, mk)
     user, _ = probes.compile_probe(
         {'name': 'user', 'kind': 'fn',
          'params': [{'n': 'obj', 'k': 'def', 'd': None}]}, hook)
@@ -197,9 +199,17 @@ class _World:
         self.attempt('call', go)
       elif k == 'singleton':
         def go():
-          gin.parse_config(['user.obj = @%s/gin.singleton()' % op['key'],
-                            '%s/gin.singleton.constructor = @mk' % op['key']])
-          got = self.user()['obj']
+          how = op.get('how', 'scoped_ctor')
+          if how == 'programmatic':
+            got = gin.config.singleton_value(op['key'], self.mk_conf)
+          else:
+            gin.parse_config(['user.obj = @%s/gin.singleton()' % op['key'],
+                              # the constructor is bound under the key's scope or,
+                              # inherited, at the root
+                              ('%s/gin.singleton.constructor = @mk' % op['key'])
+                              if how == 'scoped_ctor' else
+                              'gin.singleton.constructor = @mk'])
+            got = self.user()['obj']
           serial = getattr(got, 'serial', None)
           fresh = serial not in self.seen_singletons
           self.seen_singletons.add(serial)
@@ -252,8 +262,9 @@ class _World:
           with gin.config_scope(sc):
             return self.fns[f]()
         self.attempt('call ' + f, go)
-    self.attempt('singleton_value k1',
-                 lambda: gin.config.singleton_value('k1'))
+    for key in ('k1', 'k2'):
+      self.attempt('singleton_value ' + key,
+                   lambda: gin.config.singleton_value(key))
 
 
 def _constant_lookup(w):
